@@ -125,6 +125,11 @@ def run(ctx):
         kinds.append((os.path.join(d0, "symlink-to-valid"), {"OPENED"}, "symlink"))
         os.symlink(os.path.join(d0, "nowhere"), os.path.join(d0, "dangling"))
         kinds.append((os.path.join(d0, "dangling"), {"ERR Syscall 2 open"}, "dangling-symlink"))
+        os.symlink(os.path.join(d0, "loop-b"), os.path.join(d0, "loop-a"))
+        os.symlink(os.path.join(d0, "loop-a"), os.path.join(d0, "loop-b"))
+        kinds.append((os.path.join(d0, "loop-a"), {"ERR Syscall 40 open"}, "symlink-loop"))
+        kinds.append((os.path.join(d0, "x" * 300), {"ERR Syscall 36 open"}, "name-too-long"))
+        kinds.append((os.path.join(d0, "trunc-72", "below-a-file"), {"ERR Syscall 20 open"}, "not-a-directory"))
         for p, acc, cls in kinds:
             paths.append(p)
             expect.append((acc, cls, cls))
